@@ -62,28 +62,33 @@ CTOR_ENCODINGS = [e for e in ENCODINGS if e]
 DIFF_ENCODINGS = [None, None, 'utf-16', 'latin-1', 'utf-8', 'utf-32-le', 'utf-16-be', 'cp037']
 
 INVALID = {
-    'change': [{'encoding': 'café'}],
-    'file': [{'encoding': 'café'}],
+    'change': [{'encoding': 'café'}, {'encoding': 'utf 8'}, {'encoding': 'utf-8 '}, {'encoding': ''}, {'encoding': 'utf-8,x'},
+               {'encoding': 'a=b'}, {'encoding': 'utf\u20118'}, {'encoding': 'latin-1\xa0'}, {'encoding': 'utf-8\n'}],
+    'file': [{'encoding': 'café'}, {'encoding': 'utf 8'}, {'encoding': ' utf-8'}, {'encoding': ''}, {'encoding': 'latin-1,'},
+             {'encoding': 'utf\u20118'}, {'encoding': 'utf-8\r'}],
     'preamble': [
         {'text': b'bytes'}, {'text': None}, {'text': 5}, {'text': ''},
-        {'line_endings': 'mac'}, {'line_endings': 'DOS'}, {'line_endings': 1},
-        {'mimetype': 'text/html'}, {'mimetype': 'TEXT/PLAIN'},
+        {'line_endings': 'mac'}, {'line_endings': 'DOS'}, {'line_endings': 1}, {'line_endings': 'do'}, {'line_endings': 'nix'},
+        {'line_endings': ''}, {'mimetype': 'text/html'}, {'mimetype': 'TEXT/PLAIN'}, {'mimetype': 'text/'}, {'mimetype': 'plain'},
+        {'mimetype': ''},
         {'indent': 'x'}, {'indent': 1.5},
         {'text': '€', 'encoding': 'ascii'}, {'text': 'Ā', 'encoding': 'latin-1'},
         {'text': '\ud800', 'encoding': 'utf-8'}, {'text': 'é', 'encoding': 'shift_jis'},
-        {'encoding': 'no-such-codec'}, {'encoding': 'base64'},
+        {'encoding': 'no-such-codec'}, {'encoding': 'base64'}, {'encoding': 'utf 8'}, {'encoding': ''}, {'encoding': 'utf-8 '},
+        {'encoding': 'utf\u20118'}, {'encoding': 'latin-1\xa0'},
     ],
     'meta': [
         {'metadata': []}, {'metadata': None}, {'metadata': 'str'}, {'metadata': {}},
         {'metadata': {'a': object}}, {'metadata': {'a': {1, 2}}}, {'metadata': {'b': b'x'}},
-        {'meta_format': 'yaml'}, {'meta_format': None},
+        {'meta_format': 'yaml'}, {'meta_format': None}, {'meta_format': 'js'}, {'meta_format': ''}, {'meta_format': 'son'},
         {'metadata': {'a': '\ud800'}, 'encoding': 'utf-8'},
-        {'encoding': 'no-such-codec'}, {'encoding': 'rot13'},
+        {'encoding': 'no-such-codec'}, {'encoding': 'rot13'}, {'encoding': 'utf 8'}, {'encoding': ''}, {'encoding': 'utf\u20118'},
     ],
     'diff': [
         {'content': 'text'}, {'content': None}, {'content': b''}, {'content': bytearray(b'x')},
-        {'diff_type': 'patch'}, {'diff_type': 'TEXT'}, {'line_endings': 'mac'}, {'line_endings': ''},
-        {'encoding': 'no-such-codec'},
+        {'diff_type': 'patch'}, {'diff_type': 'TEXT'}, {'diff_type': 'tex'}, {'diff_type': 'bin'}, {'diff_type': ''},
+        {'line_endings': 'mac'}, {'line_endings': ''}, {'line_endings': 'uni'}, {'line_endings': 'os'},
+        {'encoding': 'no-such-codec'}, {'encoding': 'utf 16'}, {'encoding': ''}, {'encoding': 'latin-1 '},
     ],
 }
 
